@@ -1,10 +1,10 @@
 (* C21 — Escaping and encoding helpers are safe and invertible.
    Property theorems only; proofs are in Lib/C21_Utf8.v, Lib/C21_Pct.v,
-   C21/Proofs.v ... C21/Proofs6.v.
+   C21/Proofs.v ... C21/Proofs7.v.
    Text = list of code points, bytes = list of byte values. *)
 From Coq Require Import List NArith.
 Import ListNotations.
-From TV Require Import Lib.Obs Lib.C21_Utf8 Lib.C21_Pct C21.Model C21.Run C21.Proofs C21.Proofs2 C21.Proofs3 C21.Proofs4 C21.Proofs5 C21.Proofs6.
+From TV Require Import Lib.Obs Lib.C21_Utf8 Lib.C21_Pct C21.Model C21.Run C21.Proofs C21.Proofs2 C21.Proofs3 C21.Proofs4 C21.Proofs5 C21.Proofs6 C21.Proofs7.
 Local Open Scope N_scope.
 
 (* ---------------- HTML ---------------- *)
@@ -158,6 +158,18 @@ Theorem C21_parse_qs_preserves_every_byte :
     parse_qs_bytes v keep strict = Ok (group_pairs (keep_filter keep ps)).
 Proof. exact parse_qs_roundtrip. Qed.
 Print Assumptions C21_parse_qs_preserves_every_byte.
+
+(* The same with minimal escaping: only the bytes & = + % are percent-encoded and
+   EVERY other byte (controls, tab, space, 0x85, 0xA0, any non-ASCII byte, at the
+   start, in the middle or at the end of the query string) appears raw.  Every
+   byte of every name and value still comes back. *)
+Theorem C21_parse_qs_preserves_every_raw_byte :
+  forall v ps keep strict,
+    Forall (fun kv => bytes (fst kv) /\ bytes (snd kv)) ps ->
+    raw_of v = encode_pairs_with qs_escape_min ps ->
+    parse_qs_bytes v keep strict = Ok (group_pairs (keep_filter keep ps)).
+Proof. exact parse_qs_raw_roundtrip. Qed.
+Print Assumptions C21_parse_qs_preserves_every_raw_byte.
 
 (* ---------------- the checker used on the implementation ---------------- *)
 (* the model satisfies the boolean property applied to the implementation's
